@@ -250,6 +250,10 @@ pub fn exe_for(world: &str) -> std::path::PathBuf {
     if world == "W6" {
         return std::path::PathBuf::from(format!("{}/sim/target-shuttle/sim/riosim", verif_dir()));
     }
+    // unoptimised twins (core.rs unoptimised_twin!): the probe profile's binary
+    if world.ends_with('U') {
+        return std::path::PathBuf::from(format!("{}/sim/target/probe/riosim", verif_dir()));
+    }
     std::env::current_exe().unwrap()
 }
 
